@@ -49,7 +49,7 @@ def _case(draw):
     case["levels"] = lv
     case["q"] = draw(gen.source(case["ny"], case["nx"], kinds=("sparse", "dense", "smooth", "delta")))
     case["tower"] = draw(gen.tower(case))
-    case["bg"] = draw(st.sampled_from([0.0, 2.5, -1.0, 410.0]))
+    case["bg"] = draw(st.sampled_from([0.0, 2.5, -1.0, 410.0, 400, 3]))  # ints stay ints in JSON
     case["fp_halo"] = draw(st.booleans())  # mode used for the halo-equivalence sub-check
     case["recentre"] = draw(st.booleans())
     return case
